@@ -178,6 +178,17 @@ tm_toggled (DBusTimeout *t, void *data)
 }
 
 static int
+tm_count_short (void)
+{
+  int i, n = 0;
+  pthread_mutex_lock (&tm_mu);
+  for (i = 0; i < MAX_TIMEOUTS; i++)
+    if (tslots[i].t != NULL && dbus_timeout_get_interval (tslots[i].t) < FINITE_LIMIT) n++;
+  pthread_mutex_unlock (&tm_mu);
+  return n;
+}
+
+static int
 tm_count (void)
 {
   int i, n = 0;
@@ -579,6 +590,15 @@ int main (int argc, char **argv)
                   break;
                 }
               usleep (500);
+            }
+          else if (left > 0 && fin_done && tm_count_short () == 0
+                   && dbus_connection_get_dispatch_status (conn) == DBUS_DISPATCH_COMPLETE)
+            {
+              /* Connected, the peer has written everything it ever will (barrier passed, stream is ordered),
+               * nothing is queued, and libdbus has no short timeout registered with us any more: the calls
+               * that still "must complete" have lost their timeout.  Logical condition, not a watchdog. */
+              left = must_complete_pending (n_calls, 0);
+              if (left > 0 && tm_count_short () == 0) { quiescent = 2; break; }
             }
         }
       /* whatever is still queued gets dispatched before the final look */
